@@ -32,6 +32,7 @@ inline std::string gen_bytes(uint64_t seed,size_t len,int kind){
 // ---------------------------------------------------------------- logical request
 struct Req {
 	std::string method = "GET";
+	std::string host = "sim.example"; bool host_last = false;   // Host header (HTTP_HOST); host_last: sent behind all other headers (HTTP)
 	std::string script = "/s";        // configured script name (mount)
 	std::string path = "/echo";       // raw (still percent-encoded) path after the script name
 	bool has_query = false; std::string query;
@@ -79,8 +80,8 @@ inline Expect expect(const Req &r,int proto,bool http11,bool keepalive_hdr,int p
 	if(!r.content_type.empty()) e["CONTENT_TYPE"] = r.content_type;
 	if(r.has_body) e["CONTENT_LENGTH"] = std::to_string(r.body.size());
 	if(keepalive_hdr) e["HTTP_CONNECTION"] = "keep-alive";
-	if(proto == 0){ e["SERVER_NAME"] = "127.0.0.1"; e["SERVER_PORT"] = std::to_string(port); e["GATEWAY_INTERFACE"] = "CGI/1.0"; e["REMOTE_ADDR"] = "127.0.0.1"; e["REMOTE_HOST"] = "127.0.0.1"; e["HTTP_HOST"] = "sim.example"; }
-	else { e["REMOTE_ADDR"] = "10.1.2.3"; e["SERVER_NAME"] = "front.example"; e["SERVER_PORT"] = "80"; e["GATEWAY_INTERFACE"] = "CGI/1.1"; e["HTTP_HOST"] = "sim.example"; if(proto == 1) e["SCGI"] = "1"; if(!r.has_body) e["CONTENT_LENGTH"] = "0"; }
+	if(proto == 0){ e["SERVER_NAME"] = "127.0.0.1"; e["SERVER_PORT"] = std::to_string(port); e["GATEWAY_INTERFACE"] = "CGI/1.0"; e["REMOTE_ADDR"] = "127.0.0.1"; e["REMOTE_HOST"] = "127.0.0.1"; e["HTTP_HOST"] = r.host; }
+	else { e["REMOTE_ADDR"] = "10.1.2.3"; e["SERVER_NAME"] = "front.example"; e["SERVER_PORT"] = "80"; e["GATEWAY_INTERFACE"] = "CGI/1.1"; e["HTTP_HOST"] = r.host; if(proto == 1) e["SCGI"] = "1"; if(!r.has_body) e["CONTENT_LENGTH"] = "0"; }
 	if(r.has_query) parse_form(r.query,x.get);
 	for(auto &c:r.cookies) x.cookies.push_back(c);
 	x.body = r.has_body ? r.body : "";
@@ -105,6 +106,8 @@ inline std::string echo_text(const std::map<std::string,std::string> &env,const 
 	return t;
 }
 
+// the application mounted for this host only (the harness mounts it in front of the synchronous echo application)
+inline bool internal_host(const std::string &h){ if(h == "internal.example") return true; const std::string pre = "internal.example:"; if(h.compare(0,pre.size(),pre) != 0 || h.size() == pre.size()) return false; for(size_t i=pre.size();i<h.size();i++) if(h[i] < '0' || h[i] > '9') return false; return true; }
 inline std::string multipart_body(const Req &r){
 	std::string b;
 	for(auto &p:r.parts){ b += "--" + r.boundary + "\r\n"; b += "Content-Disposition: form-data; name=" + (p.quoted ? "\"" + p.name + "\"" : p.name);
@@ -114,11 +117,12 @@ inline std::string multipart_body(const Req &r){
 // ---------------------------------------------------------------- encoders
 inline std::string http_encode(const Req &r,bool http11,bool keepalive){
 	std::string s = r.method + " " + r.script + r.path + (r.has_query ? "?" + r.query : "") + (http11 ? " HTTP/1.1\r\n" : " HTTP/1.0\r\n");
-	s += "Host: sim.example\r\n";
+	if(!r.host_last) s += "Host: " + r.host + "\r\n";
 	for(size_t i=0;i<r.headers.size();i++){ const auto &h = r.headers[i]; std::string v = h.second; int nf = i < r.fold.size() ? r.fold[i] : 0;
 		for(size_t p=1;nf > 0 && p + 1 < v.size();p++){ if(v[p] == '"' || v[p] == '(') break; if(v[p] == ' ' && v[p-1] != ' ' && v[p+1] != ' '){ v.replace(p,1,"\r\n "); p += 2; nf--; } }
 		s += h.first + ": " + v + "\r\n"; }
 	s += r.raw_extra_headers;
+	if(r.host_last) s += "Host: " + r.host + "\r\n";
 	if(!r.cookies.empty()) s += "Cookie: " + cookie_header(r) + "\r\n";
 	if(!r.content_type.empty()) s += "Content-Type: " + r.content_type + "\r\n";
 	if(r.has_body) s += "Content-Length: " + std::to_string(r.body.size()) + "\r\n";
